@@ -47,7 +47,7 @@ Proof. intros src fake m regs A B C D E. destruct (arm_reach_a32 12 src fake m r
 Print Assumptions C13_abi_transparent_arm_a32.
 
 (* the constants of the model's encoder are those of the current Rust source (gen/SrcConsts.v is regenerated from it on every run) *)
-From Inj Require Import SrcTie.
+From Inj Require Import SrcTieAmd64 SrcTieArm64.
 From Inj.gen Require Import SrcConsts.
 Theorem C13_source_long_form_uses_rax : forall oc from to off, branch_offset oc from to = Some off ->
   (-2147483648 <=? off) && (off <=? 2147483647) = false ->
